@@ -230,6 +230,9 @@ func TestC14(t *testing.T) {
 		for _, n := range budgets {
 			plans = append(plans, &faultWriter{FailCall: -1, Budget: n})
 		}
+		for i, fw := range plans {
+			fw.Err = faultErrors[i%len(faultErrors)]
+		}
 		// run them in a drawn order, with transactions and healthy snapshots in between
 		order := rapid.Permutation(indexRange(len(plans))).Draw(t, "order")
 		limit := len(order)
